@@ -316,12 +316,7 @@ class Resolver:
             else:
                 t = ("expr", "?")
             for p in path:
-                if p == "*":
-                    t = ("op", "starrest", (t,))
-                elif t[0] in ("tuple", "list") and isinstance(p, int) and p < len(t[1]):
-                    t = t[1][p]
-                else:
-                    t = ("sub", t, ("const", p))
+                t = project(t, p)
             if t not in alts:
                 alts.append(t)
         if not alts:
@@ -367,20 +362,12 @@ class Resolver:
                 if desc[0] == "val":
                     t = self.term(desc[1], at=dat)
                     for p in path:
-                        if p == "*":
-                            t = ("op", "starrest", (t,))
-                        elif t[0] in ("tuple", "list") and isinstance(p, int) and p < len(t[1]):
-                            t = t[1][p]
-                        else:
-                            t = ("sub", t, ("const", p))
+                        t = project(t, p)
                 elif desc[0] == "elem":
                     t = self.term(desc[1], at=dat)
                     t = t[1] if t[0] == "gen" else ("elem", t)
                     for p in path:
-                        if t[0] in ("tuple", "list") and isinstance(p, int) and p < len(t[1]):
-                            t = t[1][p]
-                        else:
-                            t = ("sub", t, ("const", p))
+                        t = project(t, p)
                 else:
                     t = ("expr", "?")
                 out.append((st, t))
@@ -421,12 +408,7 @@ class Resolver:
         else:
             return ("expr", "?")
         for p in path:
-            if p == "*":
-                t = ("op", "starrest", (t,))
-            elif t[0] in ("tuple", "list") and isinstance(p, int) and p < len(t[1]):
-                t = t[1][p]
-            else:
-                t = ("sub", t, ("const", p))
+            t = project(t, p)
         return t
 
     # ------------------------------------------------------------------ callee resolution (for normalisation only)
@@ -562,6 +544,22 @@ def field_stores(model, cls, attr):
                         if isinstance(x, ast.Attribute) and x.attr == attr and isinstance(x.value, ast.Name) and fn.params and x.value.id == fn.params[0]:
                             out.append((fn, v, n))
     return out
+
+
+def project(t, p):
+    """Component p (tuple index or '*') of term t; distributes over alternatives."""
+    if p == "*":
+        return ("op", "starrest", (t,))
+    if t[0] == "phi":
+        alts = []
+        for a in t[1]:
+            x = project(a, p)
+            if x not in alts:
+                alts.append(x)
+        return alts[0] if len(alts) == 1 else ("phi", tuple(alts))
+    if t[0] in ("tuple", "list") and isinstance(p, int) and p < len(t[1]):
+        return t[1][p]
+    return ("sub", t, ("const", p))
 
 
 def _positional(callee, args, kws, bound=True):
